@@ -49,7 +49,17 @@ func newCA() *PrivateCA {
 			dir = os.TempDir()
 		}
 		caFiles.cert, caFiles.key = filepath.Join(dir, "ca.crt"), filepath.Join(dir, "ca.key")
-		os.WriteFile(caFiles.cert, pem.EncodeToMemory(&pem.Block{Type: "CERTIFICATE", Bytes: der}), 0o644)
+		// the certificate file is a bundle, as CA files often are: the issuing certificate first, then
+		// the root above it (here: another self-signed certificate). The configured CA is the first one.
+		rootPriv, _ := ecdsa.GenerateKey(elliptic.P256(), rand.Reader)
+		rootTmpl := tmpl
+		rootTmpl.SerialNumber, rootTmpl.Subject = big.NewInt(2), pkix.Name{CommonName: "vf root above the ca"}
+		rootDer, err := x509.CreateCertificate(rand.Reader, &rootTmpl, &rootTmpl, &rootPriv.PublicKey, rootPriv)
+		if err != nil {
+			panic(err)
+		}
+		bundle := append(pem.EncodeToMemory(&pem.Block{Type: "CERTIFICATE", Bytes: der}), pem.EncodeToMemory(&pem.Block{Type: "CERTIFICATE", Bytes: rootDer})...)
+		os.WriteFile(caFiles.cert, bundle, 0o644)
 		kb, _ := x509.MarshalPKCS8PrivateKey(priv)
 		os.WriteFile(caFiles.key, pem.EncodeToMemory(&pem.Block{Type: "PRIVATE KEY", Bytes: kb}), 0o600)
 		caPool = x509.NewCertPool()
